@@ -44,7 +44,7 @@ def recipe(c: Check):
     st = c.run_driver("sys", q(c.tier, 90, 600), shards=q(c.tier, 6, 16))
     if st and (c.cov.get("coq_counters") or {}).get("sys"):
         cs = c.cov["coq_counters"]["sys"]
-        for name in ("NSYSFWD", "NSYSCHAIN", "NSYSHS2H", "NSYSHS2HS", "NSYSERR504", "NSYSERR404", "NUPGRADE", "NCONNECT", "NKEEPPLAIN", "NKEEPCOMP"):
+        for name in ("NSYSFWD", "NSYSCHAIN", "NSYSHS2H", "NSYSHS2HS", "NSYSERR504", "NSYSERR404", "NUPGRADE", "NCONNECT", "NKEEPPLAIN", "NKEEPCOMP", "NOVERLAP"):
             if cs.get(name, 0) <= 0:
                 c.broken.append(dict(kind="coverage", name="driver sys never exercised %s" % name, detail=str(cs)))
     # The recorded finding C02:plugin+compression:keepalive-second-request is emitted by the sys driver itself
